@@ -68,6 +68,14 @@ impl Code {
 			}
 			if interests.local_variable_table || interests.local_variable_type_table {
 				if let Some(local_variables) = self.local_variables {
+					// only hand over the half (descriptor / signature) the visitor is interested in
+					let local_variables = local_variables.into_iter()
+						.filter_map(|mut lv| {
+							if !interests.local_variable_table { lv.descriptor = None; }
+							if !interests.local_variable_type_table { lv.signature = None; }
+							(lv.descriptor.is_some() || lv.signature.is_some()).then_some(lv)
+						})
+						.collect();
 					code_visitor.visit_local_variables(local_variables)?;
 				}
 			}
